@@ -269,6 +269,15 @@ impl Hist for C09 {
                 return bad("L6: duration is not elapsed + eta", format!("{:?} vs {:?} + {:?}", x.duration, x.elapsed, x.eta));
             }
         }
+        // after abandon the position stays where it is: the average rate reported for the finished bar
+        // is bounded by the largest rate observed as well (finish() moves the position to the length)
+        if finished && matches!(hist.last(), Some(Ev::Abandon)) && k.is_none() {
+            for (i, x) in q.iter().enumerate() {
+                if x.per_sec > max_rate * (1.0 + 1e-9) && max_rate > 0.0 {
+                    return bad("L3: per_sec of an abandoned bar exceeds the largest rate observed", format!("per_sec {} > max segment rate {} at +{} ns", x.per_sec, max_rate, QUERIES[i]));
+                }
+            }
+        }
         if !finished {
             // L3 bounded by the largest rate observed since the last reset
             for (i, x) in q.iter().enumerate() {
